@@ -295,8 +295,10 @@ var registry = []propertySpec{
 		Harnesses: []harnessSpec{
 			{Name: "VerifC15_Eval", Pkg: "q", Quick: tierSpec{Cases: 5}, Thorough: tierSpec{Cases: 8, Split: 2}, Sched: -1,
 				Bounds: "source (9 forms) | stage (42 templates: accessors, unknown accessors, First/Last/Length/Only/Combine/NodesWithTagPath/MergeDocumentsAndIndividuals with right and wrong argument counts, objects, variables, operators; numeric arguments as symbolic digits) with one stage on 4 document sets and two stages on the small family (thorough: two stages on all 4) (small family, empty, single person, two documents); every result to all five formatters"},
-			{Name: "VerifC15_Special", Pkg: "q", Quick: tierSpec{Cases: 50}, Thorough: tierSpec{Cases: 50}, Sched: -1,
-				Bounds: "25 hostile programs (self-referential variables, nil pipelines, deep .Nodes chains, pipelines over lists of lists, syntax garbage) on 2 document sets"},
+			{Name: "VerifC15_Special", Pkg: "q", Quick: tierSpec{Cases: 64}, Thorough: tierSpec{Cases: 64}, Sched: -1,
+				Bounds: "32 hostile programs (self-referential variables, variables defined twice with a cycle through the first or the last definition, nil pipelines, deep .Nodes chains, pipelines over lists of lists, syntax garbage) on 2 document sets"},
+			{Name: "VerifC15_Variables", Pkg: "q", Quick: tierSpec{Cases: 3, Split: 2}, Thorough: tierSpec{Cases: 3, Split: 2}, Sched: -1,
+				Bounds: "every program of 1..3 variable definitions over 2 names x 9 bodies (names, literals, lists, objects, functions, operators and Combine of variables) followed by one of 4 uses: 72 + 1,296 + 23,328 programs"},
 			{Name: "VerifC15_Accessors", Pkg: "q", Quick: tierSpec{Cases: 40}, Thorough: tierSpec{Cases: 40}, Sched: -1,
 				Bounds: "every accessor that reflection exposes (the list printed by 'source | ?') applied to 10 sources (document, individuals, families, names, births, husbands, nodes, strings, a number) on 4 document sets, every result to all five formatters; plus the names of struct fields (every accessor in camel and lower case, 30 field names of the document and node types, exported and unexported) as accessors, inside an object and a filter"},
 			{Name: "VerifC15_Arguments", Pkg: "q", Quick: tierSpec{Cases: 40 * 3 * 2}, Thorough: tierSpec{Cases: 40 * 3 * 2}, Sched: -1,
